@@ -83,9 +83,10 @@ HeadingZero(c) == c.yaw[4] = 0 /\ c.yaw[1] > 0
 
 (* quick: hand-picked attitudes (identity, 53 deg roll, exactly 60 deg about (1,1,1) and about
    (1,-1,1) with NEGATIVE scalar part, 53 deg pure yaw, 50 deg with negative scalar part)     *)
-QuickTilts == { <<1, 0, 0, 0>>, <<2, 1, 0, 0>>, <<3, 1, 1, 1>>, <<-3, 1, -1, 1>>, <<2, 0, 0, 1>>, <<-3, 0, 1, -1>> }
+QuickTilts == { <<1, 0, 0, 0>>, <<2, 1, 0, 0>>, <<3, 1, 1, 1>>, <<-3, 1, -1, 1>>, <<2, 0, 0, 1>>, <<-3, 0, 1, -1>>,
+                <<-3, 1, -1, 0>>, <<-3, -1, 1, 1>>, <<3, -1, -1, 0>>, <<3, 0, 1, 1>>, <<-2, 0, 1, 0>>, <<3, 1, 0, -1>> }
 SeedTilts == IF Tier = "thorough" THEN Tilts(3) ELSE QuickTilts
-PerSeed   == IF Tier = "thorough" THEN 4 ELSE 1
+PerSeed   == IF Tier = "thorough" THEN 4 ELSE 2
 HeadingTilts == IF Tier = "thorough" THEN SeedTilts ELSE { <<1, 0, 0, 0>>, <<3, 1, 1, 1>> }
 NoObs     == [k |-> -1]
 
